@@ -169,7 +169,7 @@ def inputs(ctx):
             n += 1
         ins.append({"id": "o%d" % n, "lines": roll_stream(rng, lens, 2, paint=True), "doubled": n % 2 == 0, "sim": True})
         n += 1
-    for k in range(300 if ctx.quick else 15000):
+    for k in range(300 if ctx.quick else 60000):
         mode = rng.choice(["pop", "pop", "roll", "paint"])
         lens = [rng.choice([rng.randrange(0, 41), 31, 32, 33]) for _ in range(rng.randrange(1, 5))]
         lens = [x for x in lens if x > 0] or [5]
